@@ -46,6 +46,7 @@ HISTORY = tuple(SHARD.get("history", ("get", "set", "get", "get")))
 F1 = SHARD.get("f1", 0)                       # first failing call kind: a shard parameter
 F2SET = tuple(SHARD.get("f2set", range(10)))   # candidates for the second failing call kind
 OMAX = SHARD.get("omax", 2)
+TNONE = SHARD.get("tnone")                    # which of the two timeouts is None (blocking): None / "io" / "connect" / "both"
 
 
 def h_lifecycle(o1: int, f2: int, o2: int, kind: int, ct: int, to: int, nodelay: bool) -> int:
@@ -58,6 +59,10 @@ def h_lifecycle(o1: int, f2: int, o2: int, kind: int, ct: int, to: int, nodelay:
     """
     vclock.fresh()
     B.RECV_SIZE = 4096
+    if TNONE in ("io", "both"):
+        to = None             # "block forever" must be put in force after the connect as well
+    if TNONE in ("connect", "both"):
+        ct = None
     e1 = EVENTS[F1]
     e2 = EVENTS[F2SET[concretize(f2, 0, len(F2SET) - 1)]]
     o1 = concretize(o1, 0, OMAX)
@@ -179,6 +184,11 @@ def shards(tier):
                 S.append(dict(fn="h_lifecycle", timeout=1800 if thorough else 400, shard=dict(
                     transport=tr, stack=st, f1=f1, omax=3 if thorough else 2, history=["set_nr", "set_nr", "get", "delete_nr"],
                     f2set=list(range(10)) if thorough else [0, 7])))
+    for tr, st in combos:
+        for f1 in ((0, 6, 7, 8) if thorough else (0, 6, 8)):       # none / connect / sendall / recv fails first
+            for tn in (("io", "connect", "both") if thorough else ("io", "connect")):
+                S.append(dict(fn="h_lifecycle", timeout=1800 if thorough else 400, shard=dict(
+                    transport=tr, stack=st, f1=f1, omax=2, f2set=[0, 6], tnone=tn)))
     return S
 
 
@@ -186,7 +196,7 @@ BOUNDS = {
     "quick": "4-call histories (get, set, get, get; and two with noreply delete/touch/set on Client and HashClient) then close(); first failure: any of {none, getaddrinfo, socket(), "
              "setsockopt, wrap_socket, settimeout, connect, sendall, recv, close} (shard) at a symbolic occurrence 0..2; "
              "second failure: symbolic among {none, socket(), connect, recv} at a symbolic occurrence 0..2; symbolic error kind {OSError, socket.timeout, gaierror}; connect_timeout in 1..3 and timeout in 4..6 "
-             "symbolic, no_delay symbolic; transports TCP with 1/2 resolved addresses, UNIX, TLS on Client; PooledClient "
+             "symbolic (and either of them None = blocking, for first failure none / connect / recv), no_delay symbolic; transports TCP with 1/2 resolved addresses, UNIX, TLS on Client; PooledClient "
              "(TCP) and HashClient (2 addresses)",
     "thorough": "second failure over all 9 call kinds, occurrences 0..3; adds 3 resolved addresses, pooled/hash stacks over TLS/UNIX/2 addresses, pooled HashClient",
 }
